@@ -51,15 +51,19 @@ Definition find_phdrs (eh : ehdr) (f : buf) : res (option (N * N)) :=
   let? _ := get_bytes f phoff en in
   Ok (Some (phoff, en)).
 
-Definition minimal_parse (fam : specfam) (f : buf) : res elfbytes :=
-  let? ident_buf := get_bytes f 0 16 in
-  let? (s, c, osabi, abiver) := parse_ident fam ident_buf in
+(* everything after the ident has been accepted *)
+Definition open_after_ident (s : espec) (c : class) (osabi abiver : N) (f : buf) : res elfbytes :=
   let tail_end := 16 + tail_size c in
   let? tail_buf := get_bytes f 16 tail_end in
   let? eh := fst (parse_tail s c osabi abiver tail_buf 0) in
   let? sh := find_shdrs eh f in
   let? ph := find_phdrs eh f in
   Ok {| eb_ehdr := eh; eb_shdrs := sh; eb_phdrs := ph |}.
+
+Definition minimal_parse (fam : specfam) (f : buf) : res elfbytes :=
+  let? ident_buf := get_bytes f 0 16 in
+  let? id := parse_ident fam ident_buf in
+  match id with (s, c, osabi, abiver) => open_after_ident s c osabi abiver f end.
 
 Section Queries.
   Variables (f : buf) (eb : elfbytes).
